@@ -13,6 +13,8 @@ AGG_FUNCS = ['cnt', 'first', 'arr', 'afail', 'amax']
 class G:
     def __init__(self, seed):
         self.r = random.Random(seed)
+        self.allow_root = True          # may filter operands be `$`-rooted?
+        self.allow_agg = True           # may aggregate functions be generated?
 
     # ------------------------------------------------------------ documents
     def scalar(self, jnum=False, opaque=0.0):
@@ -185,7 +187,7 @@ class G:
         out = []
         if funcs and r.random() < funcs:
             for _ in range(r.randint(1, maxn)):
-                if r.random() < 0.5:
+                if r.random() < 0.5 or not self.allow_agg:
                     out.append(('ffun', r.choice(FILTER_FUNCS)))
                 else:
                     out.append(('agg', r.choice(AGG_FUNCS)))
@@ -227,6 +229,9 @@ class G:
             n = r.choice([0, 1, 1, 1, 2])
             steps, _ = self.gen_single_steps(member, n)
             return ('cur', steps + self.gen_funcs(funcs, 1))
+        if not self.allow_root:
+            steps, _ = self.gen_single_steps(member, r.choice([0, 1, 1, 2]))
+            return ('cur', steps + self.gen_funcs(funcs, 1))
         n = r.choice([1, 1, 2])
         steps, _ = self.gen_single_steps(root, n)
         return ('root', steps + self.gen_funcs(funcs, 1))
@@ -259,7 +264,7 @@ class G:
         member = r.choice(kids) if kids else None
         if k < 0.5:
             # existence (possibly a value group), maybe negated
-            if r.random() < 0.75:
+            if r.random() < 0.75 or not self.allow_root:
                 if r.random() < 0.7:
                     steps, _ = self.gen_single_steps(member, r.choice([0, 1, 1, 2]))
                 else:
